@@ -8,7 +8,8 @@ EXTENDS XzGrepContract, TLC
 
 CONSTANTS MaxOpts,     \* number of option groups before the pattern
           Wide, DoFiles,
-          Strict       \* "none" | "label" | "sedctx": which strict (known-deviating) invariant is checked
+          Big,         \* thorough tier: larger narrow vocabulary
+          Strict       \* "none" | "sedctx": which strict (known-deviating) invariant is checked
 
 \* option groups (each is one or two words)
 WideVocab == {
@@ -16,9 +17,10 @@ WideVocab == {
     <<"-H">>, <<"-h">>, <<"-nH">>, <<"-hi">>, <<"--with-filename">>, <<"--no-filename">>,
     <<"-l">>, <<"-L">>, <<"-il">>, <<"--files-with-matches">>, <<"--files-without-match">>,
     <<"-A1">>, <<"-C", "1">>, <<"-2">>, <<"-n2H">>, <<"-i2">>, <<"--context=1">>, <<"-iB", "1">>,
-    <<"-m1">>, <<"--max-count", "1">>, <<"--max-count=1">>,
+    <<"-m1">>, <<"-m", "1">>, <<"--max-count", "1">>, <<"--max-count=1">>,
     <<"--help">>, <<"-V">>, <<"-ir">>, <<"--null">>, <<"--include=x">> }
-NarrowVocab == { <<"-H">>, <<"-h">>, <<"-l">>, <<"-L">>, <<"-A1">>, <<"-c">>, <<"-nH">>, <<"--no-filename">> }
+NarrowVocab == { <<"-H">>, <<"-h">>, <<"-l">>, <<"-L">>, <<"-A1">>, <<"-c">> }
+               \cup (IF Big THEN { <<"-nH">>, <<"--no-filename">>, <<"-q">>, <<"-2">> } ELSE {})
 OptVocab == IF Wide THEN WideVocab ELSE NarrowVocab
 
 RECURSIVE OptSeqs(_)
@@ -42,13 +44,13 @@ MCFileStates == IF Strict # "none" THEN { [gr |-> 0, xs |-> "ok"] } ELSE
                 { [gr |-> 0, xs |-> "ok"], [gr |-> 1, xs |-> "ok"], [gr |-> 1, xs |-> "fail"], [gr |-> 0, xs |-> "fail"],
                   [gr |-> 2, xs |-> "ok"], [gr |-> 0, xs |-> "pipe"], [gr |-> 1, xs |-> "kill"] }
 
-MCInit == \E p \in {"xzgrep"}, lab \in BOOLEAN, av \in ArgvSet : InitWith(p, lab, av) /\ ref = RefOf(av)
+\* the label probe is irrelevant to the scanner
+MCInit == \E p \in {"xzgrep"}, lab \in (IF DoFiles THEN BOOLEAN ELSE {TRUE}), av \in ArgvSet : InitWith(p, lab, av) /\ ref = RefOf(av)
 MCNext == /\ \/ ScanNext
              \/ DoFiles /\ ((\E st \in MCFileStates : FileStep(st)) \/ Finish)
           /\ UNCHANGED ref
 MCSpec == MCInit /\ [][MCNext]_<<vars, ref>>
 
-StrictInv == CASE Strict = "label"  -> LabelStrict
-               [] Strict = "sedctx" -> SedContextStrict
+StrictInv == CASE Strict = "sedctx" -> SedContextStrict
                [] OTHER -> TRUE
 =============================================================================
